@@ -205,7 +205,16 @@ def r2_num_out(ctx, nf) -> None:
                          f"operation class {c.name} is not covered by the output-count table", c.node)
 
 
+def _port_key(p, pp):
+    """(class, offset) a returning path of port_kind(port) is taken for: from the isinstance / offset tests on the path"""
+    cls = [u(t.args[1]) for t, k in p.tests if k and isinstance(t, ast.Call) and u(t.func) == "isinstance" and len(t.args) == 2 and u(t.args[0]) == pp]
+    off = [u(t.comparators[0]) for t, k in p.tests if k and isinstance(t, ast.Compare) and isinstance(t.ops[0], ast.Eq) and u(t.left) == f"{pp}.offset"]
+    off += [u(t.left) for t, k in p.tests if k and isinstance(t, ast.Compare) and isinstance(t.ops[0], ast.Eq) and u(t.comparators[0]) == f"{pp}.offset"]
+    return f"{cls[-1] if cls else '?'}(_, {off[-1] if off else '?'})"
+
+
 def r3_port_kinds(ctx, nf) -> None:
+    """stated over path summaries: `match port` and isinstance/offset tests, statements and conditional expressions coincide"""
     mod = ctx.program.module(OPS)
     s = sym("self")
     for cname, arms in KIND_ARMS.items():
@@ -213,17 +222,17 @@ def r3_port_kinds(ctx, nf) -> None:
         m = c.methods.get("port_kind")
         if m is None:
             ctx.broken(f"anchor vanished: hugr.ops.{cname}.port_kind")
-        paths = nf.paths(c, "port_kind")
+        pp = m.args.args[1].arg
         got_arms = {}
         other_ok = True
-        for guards, outcome, term, node, env in paths:
-            pats = [g[0][2] for g in guards if g[0][0] == "pattern" and g[1]]
-            tests = [g for g in guards if g[0][0] != "pattern"]
-            key = pats[-1] if pats else "<none>"
-            if outcome == "return":
-                got_arms[key + ("" if not tests else " if ...")] = term
-            elif outcome == "raise":
-                if not (term and "_invalid_port" in show(term) or "InvalidPort" in show(term)):
+        for p in ctx.paths(f"hugr.ops.{cname}.port_kind"):
+            if p.kind == "return":
+                try:
+                    got_arms[_port_key(p, pp)] = nf.expr_nf(p.value_text(), c, extra={pp: sym(pp)})[0]
+                except Opaque as e:
+                    ctx.broken(f"hugr.ops.{cname}.port_kind: {e}")
+            elif p.kind == "raise":
+                if not ("_invalid_port" in p.value_text() or "InvalidPort" in p.value_text()):
                     other_ok = False
             else:
                 other_ok = False
@@ -233,55 +242,75 @@ def r3_port_kinds(ctx, nf) -> None:
         got_n = {k: norm(nf, v) for k, v in got_arms.items()}
         ok = got_n == want and other_ok
         ctx.check(ok, "C06.R3", f"hugr.ops.{cname}.port_kind", c.module.path, m.lineno,
-                  f"{cname}.port_kind must offer exactly " + ", ".join(f"{p} -> {e}" for p, e in arms) + " and raise InvalidPort otherwise", m,
+                  f"{cname}.port_kind must offer exactly " + ", ".join(f"{p_} -> {e}" for p_, e in arms) + " and raise InvalidPort otherwise", m,
                   expected="; ".join(f"{k}: {show(v)}" for k, v in want.items()), found="; ".join(f"{k}: {show(v)}" for k, v in got_n.items()) + ("" if other_ok else "; a non-raising fall-through"),
                   detail="; ".join(f"{k} -> {show(v)}" for k, v in got_n.items()))
     for cname in ALWAYS_INVALID:
         c = mod.classes[cname]
         m = c.methods.get("port_kind")
-        rb = real_body(m) if m else []
-        ok = len(rb) == 1 and isinstance(rb[0], ast.Raise) and "_invalid_port" in u(rb[0])
+        ps = ctx.paths(f"hugr.ops.{cname}.port_kind") if m else []
+        ok = bool(ps) and all(p.kind == "raise" and "_invalid_port" in p.value_text() for p in ps)
         ctx.check(ok, "C06.R3", f"hugr.ops.{cname}.port_kind", c.module.path, (m or c.node).lineno, f"{cname} has no ports: port_kind must raise InvalidPort", m)
     for cname in ALWAYS_CF:
         c = mod.classes[cname]
         m = c.methods.get("port_kind")
-        rb = real_body(m) if m else []
-        ok = len(rb) == 1 and isinstance(rb[0], ast.Return) and u(rb[0].value) in ("tys.CFKind()",)
+        ps = ctx.paths(f"hugr.ops.{cname}.port_kind") if m else []
+        ok = bool(ps) and all(p.kind == "return" and p.value_text() == "tys.CFKind()" for p in ps)
         ctx.check(ok, "C06.R3", f"hugr.ops.{cname}.port_kind", c.module.path, (m or c.node).lineno, f"every port of a {cname} is a control-flow port", m)
     # DataflowOp.port_kind: order kind for -1, else ValueKind(port_type(port)); port_type = _sig_port_type(outer_signature(), port)
     d = mod.classes["DataflowOp"]
-    paths = nf.paths(d, "port_kind")
-    rets = [(g, t) for g, o, t, n, e in paths if o == "return"]
-    p = sym("port")
-    order = [t for g, t in rets if g and g[0][1] and g[0][0] == ("op", "cmp:Eq", (attr(p, "offset"), const(-1)))]
-    value = [t for g, t in rets if g and not g[0][1]]
-    ok = len(rets) == 2 and order and order[0] == ("ctor", "hugr.tys.OrderKind", ()) and value and value[0] == nf.expr_nf("tys.ValueKind(_sig_port_type(self.outer_signature(), port))", d, extra={"port": p})[0]
-    ctx.check(bool(ok), "C06.R3", "hugr.ops.DataflowOp.port_kind", d.module.path, d.methods["port_kind"].lineno,
-              "a dataflow op's port is the order port for offset -1 and otherwise a value port typed by its outer signature", d.methods["port_kind"],
-              found="; ".join(show(t) for g, t in rets))
+    dm = d.methods["port_kind"]
+    pp = dm.args.args[1].arg
+    ps = ctx.paths("hugr.ops.DataflowOp.port_kind")
+    want_v = nf.expr_nf(f"tys.ValueKind(_sig_port_type(self.outer_signature(), {pp}))", d, extra={pp: sym(pp)})[0]
+    ok = bool(ps)
+    seen = set()
+    for p in ps:
+        t = [k for t_, k in p.tests if u(t_) == f"{pp}.offset == -1"]
+        if p.kind != "return" or not t:
+            ok = False
+            continue
+        seen.add(t[0])
+        v = nf.expr_nf(p.value_text(), d, extra={pp: sym(pp)})[0]
+        ok = ok and (v == ("ctor", "hugr.tys.OrderKind", ()) if t[0] else v == want_v)
+    ctx.check(bool(ok) and seen == {True, False}, "C06.R3", "hugr.ops.DataflowOp.port_kind", d.module.path, dm.lineno,
+              "a dataflow op's port is the order port for offset -1 and otherwise a value port typed by its outer signature", dm,
+              found="; ".join(p.describe() for p in ps))
     spt = mod.functions.get("_sig_port_type")
     if spt is None:
         ctx.broken("anchor vanished: hugr.ops._sig_port_type")
-    src = u(spt)
-    rets2 = [r for r in ast.walk(spt) if isinstance(r, ast.Return)]
-    ok = len(rets2) == 2 and "Direction.INCOMING" in src
-    inc = [n for n in ast.walk(spt) if isinstance(n, ast.If) and "Direction.INCOMING" in u(n.test)]
-    if ok and inc:
-        r_in = [r for r in ast.walk(inc[0]) if isinstance(r, ast.Return)]
-        eq = isinstance(inc[0].test, ast.Compare) and isinstance(inc[0].test.ops[0], ast.Eq)
-        ok = bool(r_in) and (u(r_in[0].value) == ("sig.input[port.offset]" if eq else "sig.output[port.offset]"))
-        r_out = [r for r in rets2 if r not in r_in]
-        ok = ok and bool(r_out) and u(r_out[0].value) == ("sig.output[port.offset]" if eq else "sig.input[port.offset]")
-    raises_order = any(isinstance(n, ast.If) and "-1" in u(n.test) and any(isinstance(x, ast.Raise) for x in n.body) for n in ast.walk(spt))
-    ctx.check(bool(ok) and raises_order, "C06.R3", "hugr.ops._sig_port_type", mod.path, spt.lineno,
-              "_sig_port_type must index sig.input for incoming and sig.output for outgoing ports and refuse the order port", spt)
+    sg, pp = spt.args.args[0].arg, spt.args.args[1].arg
+    ps = ctx.paths("hugr.ops._sig_port_type")
+    ok = bool(ps)
+    seen = set()
+    for p in ps:
+        order = [k for t_, k in p.tests if u(t_) == f"{pp}.offset == -1"]
+        if order and order[0]:
+            ok = ok and p.kind == "raise"
+            seen.add("order")
+            continue
+        inc = [k for t_, k in p.tests if u(t_) == f"{pp}.direction == Direction.INCOMING"]
+        out = [k for t_, k in p.tests if u(t_) == f"{pp}.direction == Direction.OUTGOING"]
+        is_in = (inc and inc[0]) or (out and not out[0])
+        if not (inc or out) or p.kind != "return" or not order:
+            ok = False
+            continue
+        seen.add("in" if is_in else "out")
+        ok = ok and p.value_text() == (f"{sg}.input[{pp}.offset]" if is_in else f"{sg}.output[{pp}.offset]")
+    ctx.check(bool(ok) and seen == {"order", "in", "out"}, "C06.R3", "hugr.ops._sig_port_type", mod.path, spt.lineno,
+              "_sig_port_type must index sig.input for incoming and sig.output for outgoing ports and refuse the order port", spt,
+              found="; ".join(p.describe() for p in ps))
     # Hugr.port_type: value type of a Call output is the payload of its kind
     hugr = ctx.program.cls("hugr.hugr.base.Hugr")
     pt = hugr.methods.get("port_type")
-    src = u(pt)
-    ok = "op.port_type(port)" in src and "kind.ty" in src and "isinstance(kind, ValueKind)" in src
+    pp = pt.args.args[1].arg
+    ps = [p for p in ctx.paths("hugr.hugr.base.Hugr.port_type") if p.kind == "return"]
+    df = [p for p in ps if any(isinstance(t, ast.Call) and u(t.func) == "isinstance" and "DataflowOp" in u(t.args[1]) and k for t, k in p.tests)]
+    vk = [p for p in ps if any(isinstance(t, ast.Call) and u(t.func) == "isinstance" and u(t.args[1]) in ("ValueKind", "tys.ValueKind") and k for t, k in p.tests)]
+    ok = bool(df) and all(p.value_text().endswith(f".port_type({pp})") for p in df) and bool(vk) and all(p.value_text().endswith(".ty") and "port_kind(" in p.value_text() for p in vk)
     ctx.check(ok, "C06.R3", "hugr.hugr.base.Hugr.port_type", hugr.module.path, pt.lineno,
-              "Hugr.port_type must return op.port_type(port) for dataflow ops and the ValueKind payload for Call outputs", pt)
+              "Hugr.port_type must return op.port_type(port) for dataflow ops and the ValueKind payload for Call outputs", pt,
+              found="; ".join(p.describe() for p in ps)[:300])
 
 
 def r4_call(ctx, nf) -> None:
@@ -295,23 +324,24 @@ def r4_call(ctx, nf) -> None:
     ctx.check(got == inst_in, "C06.R4", "hugr.ops.Call._function_port_offset", file, m.lineno,
               "the function port of a Call sits immediately after the value inputs of the *instantiated* signature; the polymorphic body "
               "can have a different arity (row variables)", m, expected=show(inst_in), found=show(got))
-    paths = nf.paths(c, "port_kind")
+    pkm = c.methods["port_kind"]
+    pname = pkm.args.args[1].arg
+    want_ty, _ = nf.expr_nf(f"_sig_port_type(self.instantiation, {pname})", c, extra={pname: sym(pname)})
+    want_fn, _ = nf.expr_nf("tys.FunctionKind(self.signature)", c)
     ok_fn = False
     ok_val = True
-    for guards, outcome, term, node, env in paths:
-        if outcome != "return":
+    for p in ctx.paths("hugr.ops.Call.port_kind"):
+        if p.kind != "return":
             ok_val = False
             continue
+        term = nf.expr_nf(p.value_text(), c, extra={pname: sym(pname)})[0]
+        key = _port_key(p, pname)
         if term[0] == "ctor" and term[1] == "hugr.tys.FunctionKind":
-            tests = [g[0] for g in guards if g[0][0] == "op" and g[1]]
-            pats = [g[0][2] for g in guards if g[0][0] == "pattern" and g[1]]
-            ok_fn = ctor_args(term).get("ty") == attr(s, "signature") and any("InPort" in p_ for p_ in pats) and any(
-                t[1] == "cmp:Eq" and got in t[2] for t in tests)
+            ok_fn = term == want_fn and key == "InPort(_, self._function_port_offset())"
+            if not ok_fn:
+                break
         elif term[0] == "ctor" and term[1] == "hugr.tys.ValueKind":
-            inner = ctor_args(term).get("ty")
-            pname = c.methods["port_kind"].args.args[1].arg
-            want_ty, _ = nf.expr_nf(f"_sig_port_type(self.instantiation, {pname})", c, extra={pname: sym(pname)})
-            if inner != want_ty:
+            if ctor_args(term).get("ty") != want_ty:
                 ok_val = False
         else:
             ok_val = False
